@@ -180,6 +180,8 @@ def judge(plan, r, ref):
     dirt = [ev["c"] for ev in plan if ev["k"] == "dirtarget"]
     foreign = [ev["c"] for ev in plan if ev["k"] == "foreign"]
     any_fired = bool(fired) or bool(dirt)
+    if lg["escapes"]:
+        return "output-escaped", "the compiler tried to create %s outside the directory its outputs belong to" % ", ".join(lg["escapes"][:3]), fired
     fc = worlds.fault_class(r)
     if fc == "hang":
         return "hang", "cpu cap exceeded", fired
@@ -293,6 +295,56 @@ def explicit_name_cases(binfo, scratch):
     return out
 
 
+def outdir_cases(binfo, scratch):
+    """No injected fault: -R names a directory that is missing, or a plain file; and an explicit Java
+    file name without a directory part.  Exit 0 needs every requested output inside the place that
+    was asked for; nothing may be created outside the sandbox."""
+    out = []
+    kinds = ["ao", "fm", "c", "lsp", "java"]
+    fl = [worlds.OUT_FLAG[c] for c in kinds]
+    for state in ("missing", "plainfile", "present"):
+        def pre(sb, state=state):
+            if state == "plainfile":
+                open(os.path.join(sb, "out"), "w").write("not a directory\n")
+            elif state == "present":
+                os.makedirs(os.path.join(sb, "out"))
+        w = scratch.new()
+        r = worlds.compile_world(binfo, w, {"x.as": worlds.HELLO}, ["-R", "out"] + fl, ["x.as"], cpu=60, pre=pre)
+        vsim.cleanup_world(w)
+        desc = "aldor -R out %s x.as (out is %s)" % (" ".join(fl), state)
+        verdict, detail = None, ""
+        fc = worlds.fault_class(r)
+        esc = vsim.parse_log(r.log)["escapes"]
+        if fc:
+            verdict, detail = fc, (r.out + r.err)[-200:].decode("latin-1", "replace")
+        elif esc:
+            verdict, detail = "output-escaped", "tried to create " + ", ".join(esc[:3])
+        elif r.rc == 0:
+            want = ["out/x.ao", "out/x.fm", "out/x.c", "out/x.lsp", "out/aldorcode/x.java"]
+            missing = [x for x in want if not r.files.get(x)]
+            if missing:
+                verdict, detail = "exit0-missing-output", "exit 0 but %s not written (have %s)" % (", ".join(missing), ", ".join(sorted(r.files)))
+        elif not worlds.has_diag(r) and not (r.out + r.err).strip():
+            # (a command-line error is reported in plain words, without the (Error) tag of a compilation message)
+            verdict, detail = "silent-refusal", "exit %r without a word" % r.rc
+        out.append((verdict, detail, desc, "outdir-" + state))
+    # an explicit Java name without a directory part
+    w = scratch.new()
+    r = worlds.compile_world(binfo, w, {"x.as": worlds.HELLO}, ["-Fjava=alt.java", "-Fc"], ["x.as"], cpu=60)
+    vsim.cleanup_world(w)
+    esc = vsim.parse_log(r.log)["escapes"]
+    verdict, detail = None, ""
+    fc = worlds.fault_class(r)
+    if fc:
+        verdict, detail = fc, (r.out + r.err)[-200:].decode("latin-1", "replace")
+    elif esc:
+        verdict, detail = "output-escaped", "tried to create " + ", ".join(esc[:3])
+    elif r.rc == 0 and not any(k.endswith(".java") for k in r.files):
+        verdict, detail = "exit0-missing-output", "exit 0 but no .java file written (have %s)" % ", ".join(sorted(r.files))
+    out.append((verdict, detail, "aldor -Fjava=alt.java -Fc x.as", "outdir-javaname"))
+    return out
+
+
 def mixed_input_cases(binfo, scratch):
     """No injected fault: a saved form and a source in ONE invocation, in both orders; on exit 0
     every requested kind must exist for the source unit (and those a saved form can give, for it)."""
@@ -396,7 +448,7 @@ def main(argv):
 
     with vsim.Scratch("c18") as scratch:
         if replay and "other_directory" in json.load(open(replay)):
-            od = [x for x in other_directory_cases(binfo, scratch) + explicit_name_cases(binfo, scratch) + error_count_cases(binfo, scratch) + odd_name_cases(binfo, scratch) + mixed_input_cases(binfo, scratch) if x[3] == json.load(open(replay))["other_directory"]]
+            od = [x for x in other_directory_cases(binfo, scratch) + explicit_name_cases(binfo, scratch) + error_count_cases(binfo, scratch) + odd_name_cases(binfo, scratch) + mixed_input_cases(binfo, scratch) + outdir_cases(binfo, scratch) if x[3] == json.load(open(replay))["other_directory"]]
             vsim.say("replay: %s" % [(v, d) for v, d, _, _ in od])
             if any(v for v, _, _, _ in od):
                 vsim.say("VIOLATION property=%s replay=%s" % (PID, replay))
@@ -569,11 +621,11 @@ def main(argv):
             out.violations.append({"key": key, "cls": v2, "detail": d2, "replay": rp})
 
         # ---- saved forms in another directory (independent expectation, no fault) -----------
-        od = other_directory_cases(binfo, scratch) + explicit_name_cases(binfo, scratch) + error_count_cases(binfo, scratch) + odd_name_cases(binfo, scratch) + mixed_input_cases(binfo, scratch)
+        od = other_directory_cases(binfo, scratch) + explicit_name_cases(binfo, scratch) + error_count_cases(binfo, scratch) + odd_name_cases(binfo, scratch) + mixed_input_cases(binfo, scratch) + outdir_cases(binfo, scratch)
         for verdict, detail, desc, kind in od:
             if not verdict:
                 continue
-            key = "%s:%s:%s" % (verdict, "explicit-name" if kind.startswith("name-") else "error-count" if kind.startswith("errors-") else "source-name" if kind.startswith("srcname-") else "mixed-inputs" if kind.startswith("mixed-") else "other-directory-input", kind)
+            key = "%s:%s:%s" % (verdict, "explicit-name" if kind.startswith("name-") else "error-count" if kind.startswith("errors-") else "source-name" if kind.startswith("srcname-") else "mixed-inputs" if kind.startswith("mixed-") else "output-directory" if kind.startswith("outdir-") else "other-directory-input", kind)
             text = out.classify(key)
             if text is not None:
                 out.known.append({"key": key, "text": text})
